@@ -100,6 +100,9 @@ def check_case(case, rec=None, compiled=None):
 
     for i in art.sg["inputs"]:
         define(i, INPUT)
+    for i, t in enumerate(art.tensors):
+        if t.get("is_variable"):
+            define(i, INPUT)  # state tensors (LSTM): cleared by the runtime before the first inference, then carried from one inference to the next - defined whenever they are read
     nops = {n.index: n for n in art.npu_ops}
     stream_no = 0
     gidx = 0  # global operation index over all streams
@@ -424,6 +427,7 @@ def parts(ctx):
     ps += [Part("tagged-lutmix%02d" % i, tagged, ("lutmix", i, 12 if q else 300)) for i in range(2)]
     ps += [Part("tagged-heavy%02d" % i, tagged, ("heavy", i, 14 if q else 300)) for i in range(2)]
     ps += [Part("tagged-fanout%02d" % i, tagged, ("fanout", i, 16 if q else 500)) for i in range(4)]
+    ps += [Part("tagged-rnn%02d" % i, tagged, ("rnn", i, 10 if q else 300)) for i in range(2)]
     ps += [Part("poison-fanout%02d" % i, poison, ("fanout", i, 8 if q else 300)) for i in range(2)]
     ps += [Part("poison%02d" % i, poison, (["cascade", "exact", "slices", "mixed", "approx", "convs"][i % 6], i, 8 if q else 300)) for i in range(6)]
     return ps
